@@ -128,6 +128,12 @@ func VerifC08History() {
 				vmeta.fail = nil
 				vCover("probe-fault-on-a-live-label")
 				vAssert(err == nil || !errors.Is(err, status.ErrNotFound), "store-fault-is-not-reported-as-label-not-found")
+				// the transfer of the label descriptor is cut after its first byte: the get fails, it does not resolve to anything
+				vmeta.cutAfter = map[string]int{model.GetArchivePathToLabel(r, l): 1}
+				lab2 := NewLabel(LabelDescriptor(model.NewLabelDescriptor(model.LabelName(l))))
+				err = lab2.DownloadDescriptor(ctx, NewBundle(Repo(r), ContextStores(stores), Logger(zap.NewNop())), true)
+				vmeta.cutAfter = nil
+				vAssert(err != nil, "get-over-a-cut-transfer-fails")
 				break
 			}
 		}
